@@ -1,5 +1,6 @@
 """C08: permutation and state primitives on every host back end."""
 from vlib import *
+from gens import *
 LEVEL = 'model_checking'
 BACKENDS_Q = ['rel', 'c64', 'c32', 'dxor', 'generic']
 
@@ -47,8 +48,10 @@ def gen(c):
             lines += ['perm.set obj=1 data=%s' % hx(st), 'perm.permute obj=1 r=%d' % r]
             c.distinct([('perm', r, st)])
         # chained permutations and a copy
-        lines += ['perm.permute obj=1 r=%d' % rng.randrange(12), 'perm.permute obj=1 r=0',
-                  'perm.copy obj=2 src=1 free_src=1', 'perm.permute obj=2 r=6', 'perm.free obj=2']
+        # release / acquire (a conversion between the byte form and the operational form on some back ends) changes nothing
+        lines += ['perm.permute obj=1 r=%d' % rng.randrange(12), 'perm.release_acquire obj=1', 'perm.permute obj=1 r=0', 'perm.release_acquire obj=1',
+                  'perm.add obj=1 off=%d data=%s' % (rng.randrange(33), hx(pattern(rng, 7))), 'perm.release_acquire obj=1',
+                  'perm.copy obj=2 src=1 free_src=1', 'perm.release_acquire obj=2', 'perm.permute obj=2 r=6', 'perm.free obj=2']
         p.case(lines, cost=0.5, tag='permute %d' % i)
     return p
 
